@@ -59,18 +59,17 @@ func VerifC06CalculatePrice() {
 	two := big.NewInt(2)
 	unknown := new(big.Int).Mul(unsup, two).Cmp(total) > 0
 	ready := vs.And(total.Cmp(quorumB) >= 0, new(big.Int).Mul(avail, two).Cmp(total) >= 0)
-	available := vs.And(!unknown, ready)
+	// a price can only be AVAILABLE when some AVAILABLE entry exists (with a zero quorum and an empty vector the
+	// gates pass vacuously; that case must be NOT_READY and must never fail the end-blocker — repo fix 67a966f)
+	available := vs.And(vs.And(!unknown, ready), anyAvail)
 
-	vs.Assert("error-only-when-available-rule-holds-without-available-entry", (err != nil) == vs.And(available, !anyAvail))
+	vs.Assert("no-error", err == nil)
 	if err != nil {
-		vs.Assert("error-needs-zero-total-and-zero-quorum", vs.And(total.Sign() == 0, quorumB.Sign() == 0))
-		vs.Known("C06-zero-quorum-empty-vector", vs.And(available, !anyAvail))
-		vs.Assert("no-error", false)
 		return
 	}
 	vs.Assert("unknown-iff-unsupported-majority", (got.Status == types.PRICE_STATUS_UNKNOWN_SIGNAL_ID) == unknown)
 	vs.Assert("available-iff-quorum-and-available-half", (got.Status == types.PRICE_STATUS_AVAILABLE) == available)
-	vs.Assert("else-not-ready", (got.Status == types.PRICE_STATUS_NOT_READY) == vs.And(!unknown, !ready))
+	vs.Assert("else-not-ready", (got.Status == types.PRICE_STATUS_NOT_READY) == vs.And(!unknown, !available))
 	vs.Assert("timestamp-is-block-time", got.Timestamp == nowSec)
 	vs.Assert("signal-id", got.SignalID == "AAA")
 	if got.Status == types.PRICE_STATUS_AVAILABLE {
